@@ -105,7 +105,86 @@ def jobs(tier):
        '__CPROVER_ensures(__CPROVER_return_value || !(mv_k < mv_len && mv_token(str[mv_k], mv_k == 0) && str[mv_k] != \'-\' && str[mv_k] != \'\\\\\' && (mv_k == 0 || str[mv_k - 1] != \'\\\\\')))\n;\n' % can,
        '\nvoid h_main(void) { unsigned int l, k; mv_len = l; mv_k = k; char *s; _Bool *o; %s(s, o); %s }\n' % (can, END), 'bounded', b, slen + 2,
        fn='CanWildcardStringMatchMultipleValues')
+    J.append(match_job(tier))
     return J
+
+
+# ---- StringMatcher::Match(const char *): negation, numeric ranges, and the hand-off to regexec ----
+MATCH = '_ZNK6muscle13StringMatcher5MatchEPKc'
+MATCH_MODEL = r"""
+#define MV_NR %(nr)d
+unsigned int mv_nr; struct StringMatcher_IDRange mv_rng[MV_NR];      /* ghost: the parsed numeric ranges of the pattern */
+_Bool mv_regex_valid, mv_negate; int mv_regexec_result; unsigned long mv_id;
+_Bool %(IsEmpty)s(struct Queue_StringMatcher_IDRange *this) { return mv_nr == 0; }
+unsigned int %(GetNumItems)s(struct Queue_StringMatcher_IDRange *this) { return mv_nr; }
+struct StringMatcher_IDRange *%(Index)s(struct Queue_StringMatcher_IDRange *this, unsigned int i) { __CPROVER_assert(i < mv_nr, "Queue::operator[] with a valid index"); return &mv_rng[i]; }
+/* flag word: bit 0 = "regex compiled", bit 1 = "negate" (StringMatcher.h: STRINGMATCHER_FLAG_REGEXVALID = 0, _NEGATE = 1) */
+_Bool %(IsBitSet)s(void *this, unsigned int whichBit) { __CPROVER_assert(whichBit <= 1, "Match() only consults the regex-valid and negate flags"); return whichBit == 0 ? mv_regex_valid : mv_negate; }
+/* libc regexec: opaque; needs a subject string */
+int mv_regexec(void *preg, const char *string, unsigned long nmatch, void *pmatch, int eflags) { __CPROVER_assert(string != (const char *)0, "regexec() is given a string"); return mv_regexec_result; }
+unsigned long %(Atoull)s(char *str) { __CPROVER_assert(str != (char *)0, "Atoull() is given a string"); return mv_id; }
+static _Bool mv_in_ranges(unsigned int id) { for (unsigned int i = 0; i < MV_NR; i++) if (i < mv_nr && id >= mv_rng[i]._min && id <= mv_rng[i]._max) return 1; return 0; }
+#define MV_RAW(s) ((mv_nr == 0) ? (mv_regex_valid && mv_regexec_result != %(nomatch)s) : ((s)[0] >= '0' && (s)[0] <= '9' && mv_in_ranges((unsigned int)mv_id)))
+/* documented (StringMatcher.h): with numeric ranges <a-b,c> the pattern matches strings that start with a digit and whose number lies
+   in one of the ranges; otherwise the compiled regex decides; a leading ~ negates the result */
+_Bool %(MATCH)s(struct StringMatcher *this, char *str)
+__CPROVER_requires(__CPROVER_is_fresh(this, sizeof(struct StringMatcher)) && __CPROVER_is_fresh(str, 2) && mv_nr <= MV_NR)
+__CPROVER_assigns()
+__CPROVER_ensures(__CPROVER_return_value == (mv_negate ? !MV_RAW(str) : MV_RAW(str)))
+;
+"""
+
+
+def lower_match():
+    if 'LM' in _cache:
+        return _cache['LM']
+    wd = tempfile.mkdtemp(prefix='mv_ast_', dir=os.environ.get('MV_SCRATCH', '/var/tmp'))
+    try:
+        docs = cxx2c.dump_ast(TU_CPP, wd, repo=REPO)
+        L = cxx2c.Lowerer(docs, memberwise=('status_t',), opaque_records=('regmatch_t', 'regex_t'),
+                          follow=lambda qn, d: qn.endswith('StringMatcher::Match') or 'IDRange::' in qn or 'muscleInRange' in qn)
+        roots = [r for r in cxx2c.find_functions(L, record='StringMatcher', names=['Match']) if 'char' in r['type']['qualType']]
+        if len(roots) != 1:
+            raise cxx2c.Unsupported('StringMatcher::Match(const char *) not found')
+        L.lower_all(roots)
+        # the value the code compares regexec()'s result with (REG_NOMATCH), as the compiler evaluates it
+        m = re.search(r'regexec\(.*?\) != \(\(int\)\((-?\d+)\)\)', L.bodies())
+        if not m:
+            raise cxx2c.Unsupported('Match() no longer compares regexec() with REG_NOMATCH in the expected form')
+        L.nomatch = m.group(1)
+    finally:
+        shutil.rmtree(wd, ignore_errors=True)
+    _cache['LM'] = L
+    return L
+
+
+def match_job(tier):
+    L = lower_match()
+    nr = 3 if tier == 'quick' else 5
+    hdr, body = L.sliced([MATCH])
+    names = dict(IsEmpty='_ZNK6muscle5QueueINS_13StringMatcher7IDRangeEE7IsEmptyEv', GetNumItems='_ZNK6muscle5QueueINS_13StringMatcher7IDRangeEE11GetNumItemsEv',
+                 Index='_ZNK6muscle5QueueINS_13StringMatcher7IDRangeEEixEj', Atoull='_ZN6muscle6AtoullEPKc', MATCH=MATCH, nr=nr, nomatch=L.nomatch)
+    hits = re.findall(r'\b(_ZNK6muscle8BitChord\w*8IsBitSetEj)\(', hdr)
+    if not hits:
+        raise cxx2c.Unsupported('BitChord::IsBitSet no longer called by Match()')
+    names['IsBitSet'] = hits[0]
+    for k in ('IsEmpty', 'GetNumItems', 'Index', 'Atoull'):
+        if names[k] + '(' not in hdr:
+            raise cxx2c.Unsupported('collaborator %s no longer called by Match(): the model has no subject' % k)
+    # members of opaque type are byte blobs in the lowered record (their layout is not modelled): address them as such;
+    # regexec's prototype is outside the filtered AST: call the stub instead.  Both rewrites must fire.
+    n1 = body.count('(&this->_regExp)'); n2 = body.count('&(this->_flags)'); n3 = body.count('regexec(')
+    if n1 != 1 or n2 < 2 or n3 != 1:
+        raise cxx2c.Unsupported('Match(): expected one regexec(&_regExp, ...) call and two flag tests, found %d/%d/%d' % (n1, n2, n3))
+    body = body.replace('(&this->_regExp)', '((void *)this->__opaque__regExp)').replace('&(this->_flags)', '((void *)this->__opaque__flags)').replace('regexec(', 'mv_regexec(')
+    hdr = hdr.replace('int regexec(void);\n', '').replace('_Bool %s(struct ' % names['IsBitSet'], '_Bool mv_unused_IsBitSet_proto(struct ')
+    har = ('\nvoid h_main(void) { unsigned int n_; _Bool a_, b_; int r_; unsigned long i_; mv_nr = n_; mv_regex_valid = a_; mv_negate = b_; mv_regexec_result = r_; mv_id = i_;\n'
+           '  for (unsigned int i = 0; i < MV_NR; i++) { struct StringMatcher_IDRange x_; mv_rng[i] = x_; }\n'
+           '  struct StringMatcher *m; char *s; %s(m, s); __CPROVER_assert(0, "MV_CANARY: end of harness reachable"); }\n' % MATCH)
+    tu = hdr + MATCH_MODEL % names + '\n' + body + har
+    return Job('sm_Match', tu, 'h_main', enforce=[MATCH], loops=False, klass='bounded', unwind=nr + 2,
+               bound='at most %d numeric ranges (any bounds, any id, any regexec outcome, any flags); loop unwound with unwinding assertions' % nr,
+               functions=[(SM_CPP, 'StringMatcher::Match(const char *)')], timeout=600, split=0, solver='cadical')   # minisat hangs on the second incremental query of this (tiny) instance
 
 
 def meta(tier):
@@ -114,7 +193,7 @@ def meta(tier):
         level='other',
         trusted_base=['clang 14 AST', 'mv/cxx2c.py', 'cbmc 6.11.0 / goto-instrument --dfcc / minisat', 'spec functions mv_token / mv_multi in props/c15.py (written from StringMatcher.h\'s documentation)'],
         assumptions=['POSIX regcomp/regexec semantics are NOT covered: "matches iff the documented meaning says so" is undecided (DESIGN 5.C15)', 'single thread'],
-        not_lowered=['StringMatcher::SetPattern / Match (libc regex)', 'EscapeRegexTokens / RemoveEscapeChars (String is not lowered in this unit)'],
-        explanation='IsRegexToken is loop-free: all 512 inputs. HasRegexTokens and CanWildcardStringMatchMultipleValues are enforced against spec functions for every string up to the stated length (bounded).',
+        not_lowered=['StringMatcher::SetPattern (libc regcomp, String); what regexec() answers', 'EscapeRegexTokens / RemoveEscapeChars (String is not lowered in this unit)'],
+        explanation='StringMatcher::Match(const char *) is enforced against its documented rule (numeric ranges, else the compiled regex, then negation) with regexec/Atoull/the range list as ghost-backed stubs. IsRegexToken is loop-free: all 512 inputs. HasRegexTokens and CanWildcardStringMatchMultipleValues are enforced against spec functions for every string up to the stated length (bounded).',
         extra_coverage=dict(functions_lowered=len(L.order)),
     )
